@@ -20,7 +20,7 @@ for proto in ("lite", "full"):
         add(proto, "shared", 1, 2, "write", T, "quick" if T == 2 and proto == "lite" else "thorough")
     add(proto, "shared", 2, 2, "read", 2, "quick" if proto == "lite" else "thorough")
     add(proto, "shared", 2, 1, "write", 2, "thorough")
-    add(proto, "timeout", 1, 1, "mixed", 2, "thorough")
+    add(proto, "timeout", 1, 1, "mixed", 2, "quick")
     add(proto, "crossbar", 1, 2, "read", 2, "quick" if proto == "lite" else "thorough")
     add(proto, "crossbar", 2, 2, "write", 2, "thorough")
     add(proto, "timeout", 1, 1, "write", 2, "quick" if proto == "lite" else "thorough", qdepth=2)
